@@ -3,7 +3,7 @@
 From Coq Require Import List Arith Bool Lia ZArith Permutation Strings.Byte.
 From IGP Require Import Base.Str Base.Outcome Model.Tree Model.DoV Proofs.TreeInd.
 Import ListNotations.
-Open Scope Z_scope.
+Local Open Scope Z_scope.
 
 (* ---------- the two helpers *)
 Lemma find_max_single x d : 0 <= d -> find_max_value [x] d = Z.max d x.
